@@ -41,7 +41,7 @@ CLAIMS = {
          "Narrow: the PathValidation timeout handler restoring the previous path and PATH_CHALLENGE emission in populate_packet are Connection code with loops and are outside the claim."),
  "C16": ("DatagramState kernels with <= 1 queued datagram (oldest dropped first, window never exceeded, send-buffer accounting consistent) under Kani; and on the MIR of the real Connection methods: Datagrams::max_size = min(peer limit - 9, MTU - overhead - 9), Datagrams::send admits exactly what fits (Disabled / UnsupportedByPeer / TooLarge / Blocked verdict table), DatagramState::write emits a frame iff the frame as encoded fits.",
          "Partial: queues of two or more datagrams (VecDeque::retain / pop loops) exhaust CBMC; the call sites in populate_packet / loss handling and at-most-once under packet duplication (C01.a + handle_packet) are outside (DESIGN §4 C16, §9)."),
- "C17": ("Two kernels of the 0-RTT contract: when early data is REJECTED, StreamsState::zero_rtt_rejected followed by the server's fresh parameters leaves exactly the fresh connection / stream-count limits in force and no early byte accounted (every remembered and fresh value, every amount of early data); when it is ACCEPTED, TransportParameters::validate_resumption_from refuses fresh parameters that reduce any limit the client may already have relied on.",
+ "C17": ("Three kernels of the 0-RTT contract: after a Retry has discarded the 0-RTT packets, one iteration of StreamsState::retransmit_all_for_0rtt schedules the whole written prefix of the stream again, its FIN included - also for a stream that consists of a FIN only (slice from an arbitrary stream state with nothing acknowledged; found finding 12); when early data is REJECTED, StreamsState::zero_rtt_rejected followed by the server's fresh parameters leaves exactly the fresh connection / stream-count limits in force and no early byte accounted (every remembered and fresh value, every amount of early data); when it is ACCEPTED, TransportParameters::validate_resumption_from refuses fresh parameters that reduce any limit the client may already have relied on.",
          "Narrow: exactly-once delivery of early data, its disappearance on rejection, per-stream rejection reports and everything over the stream hash maps with streams open are outside the claim (hashbrown does not finish in CBMC; DESIGN §4 C17)."),
  "C19": ("Control-message encoder/decoder stay within their buffers and round-trip (level, type, value) for every option subset prepare_msg uses; ECN/stride decoding of symbolic control blocks; the receive control buffer (cmsg::LEN) holds every set of control messages Linux attaches for the options the socket enables (timestamp, GRO, packet info, TOS/traffic class; IPv4 and IPv6); the real prepare_msg conveys destination, ECN bits, segment size and requested source address for every Transmit; the GSO probe leaves no socket-wide segmentation behind (quinn-udp MIR).",
          "cmsg layer only: sockets, GSO/GRO and fallbacks are kernel behaviour behind FFI (DESIGN §4 C19)."),
